@@ -6,7 +6,7 @@
 From Coq Require Import NArith List Bool.
 From GV Require Import Base.Result Gen.TokenTypes Gen.Tokens Model.Lexer Spec.LexSpec
   Proofs.C13.LexRun Proofs.C13.LexPosRun Proofs.C13.LexOp Proofs.C13.LexBlankSpec Proofs.C13.LexFull
-  Proofs.C13.LexMaximal Proofs.C13.LexMaxNum.
+  Proofs.C13.LexMaximal Proofs.C13.LexMaxNum Proofs.C13.LexMaxPeriod.
 Import ListNotations.
 Local Open Scope N_scope.
 
@@ -302,6 +302,31 @@ Example C13_ex_number_maximal : forall un ua,
              [([49; 95; 48; 120; 46; 53], TT_Number); ([43], TT_PlusSign); ([46; 53], TT_Number);
               ([32], TT_Whitespace); ([55; 46], TT_Number); ([32], TT_Whitespace);
               ([49], TT_Number); ([46; 46], TT_Range); ([50], TT_Number)]
+  | _ => False
+  end.
+Proof. intros. vm_compute. reflexivity. Qed.
+
+(* The one way a digits-like Number token can stop in front of a character it could have
+   taken: a period.  If a Number token without a period is followed by a period in the
+   input, then either a second period follows (`1..2`: the range operator wins), or the
+   token before the number is one after which a period never starts a fraction --
+   Value, CharList, ByteList, Identifier, Period or Number ([blocks_float], the
+   `can_float` flag of the lexer; e.g. the access chain `x.5.5`).  Otherwise the period
+   belongs to the Number token (C13_number_maximal, float-like case). *)
+Theorem C13_number_period_rule : forall un ua s ts,
+  lex un ua s = Ok ts ->
+  forall pre t post, ts = pre ++ t :: post -> tok_type t = TT_Number -> ~ In 46 (tok_text t) ->
+  forall r, concat (map tok_text post) = 46 :: r ->
+    (exists r', r = 46 :: r') \/
+    (exists pre' p, pre = pre' ++ [p] /\ blocks_float (Some (tok_type p)) = true).
+Proof. exact lex_number_period_rule. Qed.
+Print Assumptions C13_number_period_rule.
+
+(* `x.5.5` : after the Period token the 5 cannot take the following period *)
+Example C13_ex_number_period_rule : forall un ua,
+  match lex un ua [120; 46; 53; 46; 53] with
+  | Ok ts => map (fun t => (tok_text t, tok_type t)) ts =
+             [([120], TT_Identifier); ([46], TT_Period); ([53], TT_Number); ([46], TT_Period); ([53], TT_Number)]
   | _ => False
   end.
 Proof. intros. vm_compute. reflexivity. Qed.
